@@ -528,6 +528,12 @@ func histories(c *engine.Ctx) {
 	if !c.Quick() {
 		maxLen = 5
 	}
+	var coreAlpha []op
+	for _, o := range alpha {
+		if o.Kind == "compile" || o.Kind == "register" || (o.Kind != "runmach" && o.Arg < coreMachines) {
+			coreAlpha = append(coreAlpha, o)
+		}
+	}
 	var rec func(h []op)
 	classes := map[string]bool{}
 	rec = func(h []op) {
@@ -559,7 +565,13 @@ func histories(c *engine.Ctx) {
 		if len(h) == maxLen {
 			return
 		}
-		for _, o := range alpha {
+		ext := alpha
+		if len(h) >= 4 {
+			// (the fifth operation of a thorough history comes from the core alphabet: operations on
+			// machines 0..6 and compilations; the quick tier's length-4 histories use the whole alphabet)
+			ext = coreAlpha
+		}
+		for _, o := range ext {
 			next := append(append([]op{}, h...), o)
 			if len(next) == 2 && !c.Owns("h:"+fmt.Sprint(next)) {
 				continue
